@@ -173,6 +173,21 @@ def _slice_bounds(repo, mi, e, params=None, depth=0):
     return out
 
 
+def _const_names(repo, cq, e):
+    """Tuple of strings a class-level constant (``self.NAME`` / ``cls.NAME`` / ``Class.NAME``) or a literal display holds, else None."""
+    if isinstance(e, (ast.Tuple, ast.List)) and all(isinstance(x, ast.Constant) and isinstance(x.value, str) for x in e.elts):
+        return [x.value for x in e.elts]
+    d = dotted(e)
+    if d and d.count(".") == 1 and d.split(".")[0] in ("self", "cls", "type(self)"):
+        name = d.split(".")[1]
+        for c in repo.mro(cq):
+            for n in repo.cls(c).body:
+                if isinstance(n, ast.Assign) and any(isinstance(t, ast.Name) and t.id == name for t in n.targets):
+                    return _const_names(repo, cq, n.value) if isinstance(n.value, (ast.Tuple, ast.List)) else None
+        # never assigned through self anywhere?  (an instance attribute of the same name would shadow the class constant)
+    return None
+
+
 def _getstate(ck, repo, nf, cq, gq, g, init_vals):
     """Analyse one __getstate__; returns (removed keys, transformed keys) or raises AnalysisError on an unrecognised idiom."""
     gmi = repo.cls(gq)._module
@@ -201,6 +216,13 @@ def _getstate(ck, repo, nf, cq, gq, g, init_vals):
             removed.append(x.value.args[0].value)
         elif isinstance(x, ast.Assign) and isinstance(x.targets[0], ast.Subscript) and dotted(x.targets[0].value) == dn and isinstance(x.targets[0].slice, ast.Constant):
             transformed[x.targets[0].slice.value] = x.value
+        elif isinstance(x, ast.For) and isinstance(x.target, ast.Name) and not x.orelse and len(x.body) == 1 and _const_names(repo, cq, x.iter) is not None \
+                and ((isinstance(x.body[0], ast.Delete) and len(x.body[0].targets) == 1 and isinstance(x.body[0].targets[0], ast.Subscript) and dotted(x.body[0].targets[0].value) == dn
+                      and isinstance(x.body[0].targets[0].slice, ast.Name) and x.body[0].targets[0].slice.id == x.target.id)
+                     or (isinstance(x.body[0], ast.Expr) and isinstance(x.body[0].value, ast.Call) and isinstance(x.body[0].value.func, ast.Attribute) and x.body[0].value.func.attr == "pop"
+                         and dotted(x.body[0].value.func.value) == dn and x.body[0].value.args and isinstance(x.body[0].value.args[0], ast.Name) and x.body[0].value.args[0].id == x.target.id)):
+            # `for k in <constant tuple of names>: del d[k]`
+            removed += _const_names(repo, cq, x.iter)
         else:
             names = {n.id for n in ast.walk(x) if isinstance(n, ast.Name)}
             if dn in names or any(isinstance(n, ast.Attribute) and dotted(n) and dotted(n).startswith("self.") for n in ast.walk(x) if isinstance(getattr(n, "ctx", None), ast.Store)):
@@ -209,7 +231,17 @@ def _getstate(ck, repo, nf, cq, gq, g, init_vals):
     dyn = sorted(a for a, (v, _) in init_vals.items() if _is_dynamic_class(v))
     miss = sorted(set(dyn) - set(removed))
     ck.ob("R1-pickling-symmetry", site, "unpicklable-removed", not miss, f"__getstate__ removes {sorted(removed)}; dynamically created classes / lambdas: {dyn}", "" if not miss else f"`{miss}` holds a dynamically created class and stays in the pickled state: pickling fails", loc(gmi, g))
-    # transformations: follow into helpers, look at truncations of the storage
+    # entries added under a new key (a packed record): every ordinary attribute that was removed must at least be an input of one of
+    # them - what is not handed to the packing code cannot be in the pickled state, and nothing can bring it back on reload
+    added = {k: v for k, v in transformed.items() if k not in init_vals}
+    if added:
+        inputs = {dotted(n)[5:].split(".")[0] for v in added.values() for n in ast.walk(v) if isinstance(n, ast.Attribute) and dotted(n) and dotted(n).startswith("self.")}
+        whole = any(isinstance(n, ast.Name) and n.id == "self" and not isinstance(getattr(n, "_parent", None), ast.Attribute) for v in added.values() for n in ast.walk(v))
+        for a in sorted(set(removed)):
+            if a in init_vals and not _is_dynamic_class(init_vals[a][0]) and not whole:
+                ok_in = a in inputs
+                ck.ob("R1-pickling-symmetry", site, f"removed-data-is-packed:{a}", ok_in, f"`{a}` removed from the pickled dict; packed entries {sorted(added)} are built from {sorted(inputs)}",
+                      "" if ok_in else f"`{a}` is dropped from the pickled state and is not an input of the packed record: its value at save time is lost, so the reloaded object cannot continue like the saved one (it can only be guessed from other fields)", loc(gmi, g))
     for k, v in transformed.items():
         same = ast.unparse(v) == f"self.{k}"
         if same:
@@ -257,8 +289,9 @@ def _setstate_chain(repo, cq):
 def r1_buffers(ck, repo, nf):
     mod = repo.module(MODQ)
     classes = [f"{MODQ}.{n}" for n, d in mod.defs.items() if isinstance(d, ast.ClassDef)]
-    n_pairs = 0
-    for cq in classes:
+    n_pairs = [0]
+
+    def one_class(cq):
         cls = repo.cls(cq)
         mi = cls._module
         init_vals = _init_attr_values(repo, cq)
@@ -266,13 +299,13 @@ def r1_buffers(ck, repo, nf):
         gs, ss = repo.method(cq, "__getstate__"), repo.method(cq, "__setstate__")
         if gs is None and ss is None:
             ck.ob("R1-pickling-symmetry", cq, "default-pickling-ok", not dyn, f"dynamic-class / lambda attributes: {dyn}", "" if not dyn else "a class pickled by default holds an unpicklable attribute", loc(mi, cls))
-            continue
+            return
         ok = gs is not None and ss is not None
         ck.ob("R1-pickling-symmetry", cq, "has-state-pair", ok, f"__getstate__ {'from ' + gs[0].rsplit('.', 1)[1] if gs else 'missing'}; __setstate__ {'from ' + ss[0].rsplit('.', 1)[1] if ss else 'missing'}",
               "" if ok else "__getstate__ and __setstate__ must come as a pair", loc(mi, cls))
         if not ok:
-            continue
-        n_pairs += 1
+            return
+        n_pairs[0] += 1
         removed, transformed = _getstate(ck, repo, nf, cq, gs[0], gs[1], init_vals)
         # ---- __setstate__ ----
         chain = _setstate_chain(repo, cq)
@@ -328,7 +361,9 @@ def r1_buffers(ck, repo, nf):
                 ok = cache and same_as_init
                 ck.ob("R1-pickling-symmetry", cq, f"setstate-write:{a}", ok, f"self.{a} = {short(v, 50)}" + (" (lazily recomputed cache reset to its constructor value)" if ok else ""),
                       "" if ok else f"__setstate__ overwrites `{a}`, which was saved: the reloaded object differs from the saved one", loc(omi, x))
-    ck.floor("state-pairs", n_pairs, 5)
+    for cq in classes:
+        ck.guard(one_class, cq)
+    ck.floor("state-pairs", n_pairs[0], 5)
 
 
 # ---------------------------------------------------------------------------------------------------------------------------
